@@ -28,7 +28,7 @@ LISTS = set(R.BLOCKER_LISTS)
 
 
 def check(run):
-    for cfg in ("A", "B"):
+    for cfg in run.cfgs("A", "B"):
         F = run.facts(cfg)
         run.guard("C06.1.interior-mutability", cfg, lambda: rule_im(run, F, cfg))
         run.guard("C06.2.pure-cache", cfg, lambda: rule_pure_cache(run, F, cfg))
